@@ -129,6 +129,20 @@ func C15(e *core.Env) int {
 			fmt.Fprintf(sb, "package %s\n\ntype Keep%s struct{}\n\n", normalisePkg(filepath.Base(pd)), normalisePkg(filepath.Base(pd)))
 			srcs[pd] = sb
 		}
+		// a CLI-level output:package with a NAME that every converter overrides with its own PATH (without name):
+		// the converter-level line replaces the CLI one completely
+		cliPkg := ""
+		if i%5 == 3 {
+			all := true
+			for _, c := range s.convs {
+				if c.pkgForm != "path" && c.pkgForm != "pathname" {
+					all = false
+				}
+			}
+			if all && !s.conflict {
+				cliPkg = "output:package vcase/" + s.name + "/elsewhere:globalname"
+			}
+		}
 		expected := map[string]string{} // abs path -> clause
 		pkgIDs := map[string]map[string]bool{}
 		existingAt := map[string]string{}
@@ -260,6 +274,10 @@ func C15(e *core.Env) int {
 				os.MkdirAll(d, 0o755)
 				os.WriteFile(filepath.Join(d, "existing.go"), []byte("package "+name+"\n\ntype Existing struct{}\n"), 0o644)
 			}
+		}
+		if cliPkg != "" {
+			// insert the global setting after "gen"
+			args = append([]string{args[0], "-g", cliPkg}, args[1:]...)
 		}
 		before := core.SnapshotTree(dir)
 		cli, evs, err := core.RunStraced(bin, args, core.RunOpts{Dir: procdir, Env: e.GoEnv(), Timeout: 2 * time.Minute}, dir, nil)
